@@ -1,9 +1,38 @@
-"""C20 -- system-level check (see csys.py)."""
+"""C20 -- cached objects are never modified in place: static taint analysis (translator) + runtime deep hashes."""
+import json
+import os
+import shutil
 import csys
+import c16
+import vlib
 
 
 def run(res, tier, seed):
     csys.run(res, tier, seed, "C20")
+    ok, out = c16.translator_build()
+    ok2, out2, dt = c16.run_translator() if ok else (False, out, 0)
+    res.obligation("facts regenerated from /repo's current source (SSA taint analysis of informer-cache objects)", ok and ok2)
+    if not (ok and ok2):
+        res.violation({"property": "C20", "kind": "proof-break", "theorem_or_correspondence": "translator", "detail": (out + str(out2))[-2000:]}, nofail=True)
+        return
+    shutil.copy(os.path.join(vlib.COQ, "Properties", "C20_current.v.tmpl"), os.path.join(c16.GEN, "C20_current.v"))
+    with vlib.Lock("coq.lock"):
+        rc1, o1, _ = vlib.sh("timeout 600 coqc -Q .. NIPAM -R . Gen Facts_mut.v 2>&1", cwd=c16.GEN, timeout=700, check=False)
+        rc2, o2, _ = vlib.sh("timeout 600 coqc -Q .. NIPAM -R . Gen C20_current.v 2>&1", cwd=c16.GEN, timeout=700, check=False) if rc1 == 0 else (1, o1, 0)
+    res.obligation("theorem current_tree_no_cache_writes : cache_write_sites = [] (regenerated facts)", rc2 == 0)
+    facts = json.load(open(os.path.join(c16.GEN, "facts.json")))
+    sites = facts.get("cache_write_sites") or []
+    res.coverage["static_cache_write_sites"] = sites
+    res.coverage["static_functions_analysed"] = len(facts["functions"])
+    res.assumptions.append("static part: the translator's taint rules (sources: lister Get/List results and informer handler arguments; propagation through field/index/"
+                           "deref/convert/phi and calls inside the two packages; sinks: stores, map updates, append/copy/delete on tainted data, calls handing tainted "
+                           "pointers to callees outside the read-only allow-list) are trusted; runtime part: every cached object is hashed before and after every step")
+    if rc2 != 0:
+        if sites:
+            res.violation({"property": "C20", "kind": "static-path", "theorem_or_correspondence": "gen/C20_current.v: cache_write_sites = [] no longer holds",
+                           "violation": "instruction(s) that can write through an informer-cache object", "sites": sites})
+        else:
+            res.violation({"property": "C20", "kind": "proof-break", "theorem_or_correspondence": "gen/C20_current.v", "detail": (o1 + o2)[-2000:]}, nofail=True)
 
 
 def replay(res, path):
